@@ -54,6 +54,20 @@ class ModelGrammar:
     classes: dict            # name -> (kind, parent name | None, [(field, TypeV)])
     supplied: list           # names handed to extract_grammar (order matters to the registration)
     note: str = ""
+    more_bases: dict = field(default_factory=dict)     # name -> further base classes after the grammar parent (multiple inheritance)
+
+    def bases(self, n: str) -> list:
+        p = self.classes[n][1]
+        return ([p] if p is not None else []) + list(self.more_bases.get(n, []))
+
+    def linearisation(self, n: str) -> list:
+        """class names in method-resolution order (depth first through the first base, then the further bases; no diamonds in the models)"""
+        out = [n]
+        for b in self.bases(n):
+            for k in self.linearisation(b):
+                if k not in out:
+                    out.append(k)
+        return out
 
     def t(self, n: str) -> TypeV:
         return C(n)
@@ -62,15 +76,7 @@ class ModelGrammar:
         return self.classes[n][0] == "abstract"
 
     def subclasses(self, n: str) -> list:
-        out = []
-        for k in self.classes:
-            p = k
-            while p is not None:
-                if p == n:
-                    out.append(k)
-                    break
-                p = self.classes[p][1]
-        return out
+        return [k for k in self.classes if n in self.linearisation(k)]
 
 
 def _inner_classes(t: TypeV) -> list:
@@ -89,6 +95,11 @@ FAMILY: list[ModelGrammar] = [
         "Num": ("concrete", "Lit", [("v", INT)]), "Var": ("concrete", "Atom", [("n", INT)]),
         "Add": ("concrete", "Expr", [("l", C("Expr")), ("r", C("Expr"))]),
     }, ["Atom", "Lit", "Num", "Var", "Add"]),
+    ModelGrammar("intermediate abstract types not among the supplied classes", "Expr", {
+        "Expr": ("abstract", None, []), "Atom": ("abstract", "Expr", []), "Lit": ("abstract", "Atom", []),
+        "Num": ("concrete", "Lit", [("v", INT)]), "Var": ("concrete", "Atom", [("n", INT)]),
+        "Add": ("concrete", "Expr", [("l", C("Expr")), ("r", C("Expr"))]),
+    }, ["Num", "Var", "Add"]),
     ModelGrammar("three abstract levels, supplied bottom-up", "Expr", {
         "Expr": ("abstract", None, []), "Atom": ("abstract", "Expr", []), "Lit": ("abstract", "Atom", []),
         "Num": ("concrete", "Lit", [("v", INT)]), "Neg": ("concrete", "Expr", [("e", C("Atom"))]),
@@ -353,13 +364,14 @@ def interpret(ctx, g: ModelGrammar, e: int) -> tuple[Optional[dict], str]:
             n = cname(it.ev(call.func.value, env, 9))
             if n is None:
                 return [it.ev(call.func.value, env, 9), OBJECT]
-            chain, p = [], n
-            while p is not None:
-                chain.append(C(p))
-                p = g.classes[p][1]
-            if g.is_abstract(chain[-1].name):
+            chain = [C(k) for k in g.linearisation(n)]
+            if any(g.is_abstract(k.name) for k in chain):
                 chain.append(ABC_T)
             return chain + [OBJECT]
+        if nm == "__subclasses__" and isinstance(call.func, ast.Attribute) and not args:
+            n = cname(it.ev(call.func.value, env, 9))
+            if n is not None:
+                return [C(k) for k in g.classes if n in g.bases(k)]
         if nm == "issubclass" and len(args) == 2:
             a, b = cname(args[0]), cname(args[1])
             if a is None:
@@ -379,6 +391,21 @@ def interpret(ctx, g: ModelGrammar, e: int) -> tuple[Optional[dict], str]:
         # 'parent not in [object, ABC, Generic, int, ...]': ABC / Generic are names of the abc / typing modules
         if isinstance(e_, ast.Name) and e_.id in ("ABC", "Generic", "ABCMeta", "Protocol") and e_.id not in env:
             return ABC_T if e_.id == "ABC" else TypeV("class", e_.id)
+        # class reflection spelled as attributes: the direct bases / the linearisation / the name of a model class
+        if isinstance(e_, ast.Attribute) and e_.attr in ("__bases__", "__mro__", "__name__", "__qualname__"):
+            v_ = it.ev(e_.value, env, 9)
+            n = cname(v_)
+            if n is None and isinstance(v_, TypeV) and v_.kind in ("builtin", "class") and e_.attr in ("__bases__", "__mro__"):
+                return [OBJECT] if e_.attr == "__bases__" else [v_, OBJECT]       # int, str, ...: plain classes below object
+            if n is not None:
+                if e_.attr in ("__name__", "__qualname__"):
+                    return n
+                if e_.attr == "__bases__":
+                    return [C(b) for b in g.bases(n)] or [ABC_T if g.is_abstract(n) else OBJECT]
+                chain = [C(k) for k in g.linearisation(n)]
+                if any(g.is_abstract(k.name) for k in chain):
+                    chain.append(ABC_T)
+                return chain + [OBJECT]
         return None
 
     def mk():
@@ -465,9 +492,10 @@ def tup(*ts: TypeV) -> TypeV:
 
 
 def wrapper_family() -> list:
-    """S -> P(f: W) | Z, T -> Z2: the only way from S back to S passes through the wrapper type W, for nine nested forms"""
+    """S -> P(f: W) | Z, T -> Z2: the only way from S back to S passes through the wrapper type W, for fourteen nested forms"""
     S, T = C("S"), C("T")
-    forms = [lst(S), ann(S), uni(S, T), tup(S, T), ann(lst(S), "MHL"), lst(ann(S)), uni(lst(S), T), tup(lst(S), T), lst(tup(S, T))]
+    forms = [lst(S), ann(S), uni(S, T), tup(S, T), ann(lst(S), "MHL"), lst(ann(S)), uni(lst(S), T), tup(lst(S), T), lst(tup(S, T)),
+             lst(uni(S, T)), ann(lst(uni(S, T)), "MHL"), ann(uni(S, T)), lst(lst(S)), uni(ann(S), T)]
     out = []
     for w in forms:
         out.append(ModelGrammar(f"recursion only through a field of type {w.name.replace('S', 'A').replace('T', 'B')}", "S", {
